@@ -456,6 +456,7 @@ func runC06(c *Ctx) {
 	rulePanicSites(c, scope)
 	ruleParserTermination(c, scope)
 	ruleReentrantScratch(c, "R06.g", scope)
+	ruleParserNumbersChecked(c, "R06.e", scope)
 	c.assume("strconv.Atoi returns an error (not a wrapped value) on overflow; bytes.Buffer and io.Reader behave as documented (0 <= n <= len(p))")
 }
 
